@@ -1,4 +1,9 @@
 import MesaModel.Proofs.Viz
+import MesaModel.Proofs.VizLayers
+import MesaModel.Proofs.VizAltair
+import MesaModel.Proofs.VizInputs
+import MesaModel.Proofs.VizKwargs
+import MesaModel.Proofs.VizSize
 /-!
 # C20 — visualisation data shows each agent once, where it is, as portrayed
 
@@ -268,6 +273,121 @@ theorem C20_distinct_locations_distinct_positions (fam : Family) {a b : Loc}
     (h : transform fam a = transform fam b) : a = b :=
   transform_injective fam h
 
+/-! ## the default size -/
+
+/-- The size of a marker whose portrayal names none (`s_default`) is a positive finite number in every reachable
+    space that holds an agent: `(180 / max(width, height))²` on grids and continuous spaces (the extent is positive
+    there); `180²` on a network with a single node (fix V12: the layout has no extent — it was (180/0)² = inf);
+    `(180 / side)²` with the positive larger side of the centroids' bounding box on Voronoi grids with at least two
+    centroids.  (Networks with several nodes: by networkx's layout, not modelled.) -/
+theorem C20_default_size_defined {sp : Space} (h : Reachable sp) (hne : sp.placed ≠ []) :
+    (sp.fam.isOrthogonal = true ∨ sp.fam.isHex = true ∨ sp.fam.cellular = false →
+      0 < max (sp.w : Int) (sp.h : Int) ∧
+      defaultSize sp = .exact ⟨32400, (max (sp.w : Int) (sp.h : Int) * max (sp.w : Int) (sp.h : Int)).toNat⟩) ∧
+    (sp.fam = .net ∨ sp.fam = .netgrid →
+      sp.cells.length ≠ 0 ∧ (sp.cells.length = 1 → defaultSize sp = .exact ⟨32400, 1⟩) ∧
+      (2 ≤ sp.cells.length → defaultSize sp = .layout)) ∧
+    (sp.fam = .vor → 2 ≤ sp.cells.length → ∃ f, defaultSize sp = .exact f ∧ f.num = 32400 ∧ 0 < f.den) := by
+  have hw := reachable_wf h
+  refine ⟨fun hf => ?_, fun hf => ?_, fun hf hlen => ?_⟩
+  · have hpos := extent_pos h hne hf
+    refine ⟨hpos, ?_⟩
+    unfold defaultSize sizeOfExtent
+    rcases hf with hf | hf | hf <;> cases hfam : sp.fam <;> simp [hfam, Family.isOrthogonal, Family.isHex, Family.cellular] at hf <;>
+      simp only [if_pos hpos]
+  · obtain ⟨a, ha⟩ := List.exists_mem_of_ne_nil _ hne
+    obtain ⟨l, _, hl⟩ := hw.located a ha
+    have hcell : sp.fam.cellular = true := by rcases hf with hf | hf <;> rw [hf] <;> rfl
+    have hmem := hl hcell
+    have hlen : sp.cells.length ≠ 0 := by
+      intro h0
+      rw [List.length_eq_zero_iff.mp h0] at hmem
+      cases hmem
+    refine ⟨hlen, fun h1 => ?_, fun h2 => ?_⟩
+    · unfold defaultSize
+      rcases hf with hf | hf <;> simp only [hf, h1] <;> rfl
+    · unfold defaultSize
+      have h1 : sp.cells.length ≠ 1 := by omega
+      rcases hf with hf | hf <;> simp only [hf, if_neg hlen, if_neg h1]
+  · have hpos := bbox_pos hw.cellsNodup hlen
+    unfold defaultSize sizeOfExtent
+    simp only [hf, if_pos hpos]
+    refine ⟨_, rfl, rfl, ?_⟩
+    have : 0 < max (spread (sp.cells.map (·.x))) (spread (sp.cells.map (·.y))) *
+        max (spread (sp.cells.map (·.x))) (spread (sp.cells.map (·.y))) := Int.mul_pos hpos hpos
+    simp only
+    omega
+
+/-! ## plotting keyword arguments -/
+
+/-- `draw_space(space, agent_portrayal, ax=ax, **kw)` with plotting keywords among `alpha` / `edgecolors` /
+    `linewidths`.  The keywords reach the scatter calls of grids and networks only (`kw'`; continuous and Voronoi
+    spaces drop them).  The call is refused exactly when the space holds an agent and some keyword is also
+    specified by some agent's portrayal (`clashes`; the first one in the order edgecolors, linewidths, alpha is
+    named); otherwise the scatter calls are those of `draw_space` without keywords — so
+    `C20_draw_one_marker_per_agent` applies to them — and every one is handed `kw'` in addition. -/
+theorem C20_draw_kwargs {sp : Space} (h : Reachable sp) (heap : Heap) (p : Portrayal) (kw : List (Key × Val)) :
+    ∃ gs kw', drawSpace sp heap p = .ok gs ∧ kw' = (if forwardsKwargs sp.fam then kw else []) ∧
+      ((sp.placed = [] ∨ ∀ kf ∈ optKeys, ¬ clashes (drawEntries sp heap p) kw' kf) →
+        drawSpaceKw sp heap p kw = .ok ⟨gs, kw'⟩) ∧
+      (∀ k, drawSpaceKw sp heap p kw = .error (.conflict k) →
+        sp.placed ≠ [] ∧ ∃ kf ∈ optKeys, kf.1 = k ∧ clashes (drawEntries sp heap p) kw' kf) ∧
+      drawSpaceKw sp heap p kw ≠ .error .attribute := by
+  have w := reachable_wf h
+  have hlen := drawEntries_length w heap p
+  refine ⟨_, _, drawSpace_eq w heap p, rfl, fun hc => ?_, fun k hk => ?_, ?_⟩
+  · rw [drawSpaceKw_eq w]
+    unfold scatterKw
+    rcases hc with he | hc
+    · have : drawEntries sp heap p = [] := List.length_eq_zero_iff.mp (by rw [hlen, he]; rfl)
+      rw [this]; rfl
+    · split
+      · rename_i he
+        have : drawEntries sp heap p = [] := by simpa using he
+        rw [this]; rfl
+      · rw [(kwConflict_none_iff _ _).mpr hc]
+  · rw [drawSpaceKw_eq w] at hk
+    unfold scatterKw at hk
+    split at hk
+    · cases hk
+    · rename_i he
+      cases hc : kwConflict (drawEntries sp heap p) (if forwardsKwargs sp.fam then kw else []) with
+      | none => rw [hc] at hk; cases hk
+      | some k' =>
+        rw [hc] at hk
+        injection hk with hk
+        injection hk with hk
+        subst hk
+        refine ⟨fun hp => ?_, kwConflict_some hc⟩
+        have : (drawEntries sp heap p).length = 0 := by rw [hlen, hp]; rfl
+        exact he (by simpa using List.length_eq_zero_iff.mp this)
+  · rw [drawSpaceKw_eq w]
+    unfold scatterKw
+    split
+    · intro hx; cases hx
+    · cases kwConflict (drawEntries sp heap p) (if forwardsKwargs sp.fam then kw else []) <;> intro hx <;> cases hx
+
+/-- What the keywords do to the markers (matplotlib's side, `applyKw`): a keyword given sets that property of every
+    marker of every call, the other properties stay as the portrayals gave them; without keywords nothing changes. -/
+theorem C20_draw_kwargs_apply_to_every_marker (d : KwDrawing) :
+    d.drawn.flatten = (d.groups.flatMap (·.drawn)).map (applyKw d.kw) ∧
+    (∀ e, (applyKw d.kw e).loc = e.loc ∧ (applyKw d.kw e).s = e.s ∧ (applyKw d.kw e).c = e.c ∧
+      (applyKw d.kw e).marker = e.marker ∧ (applyKw d.kw e).zorder = e.zorder) ∧
+    (∀ e v, d.kw.lookup "alpha" = some v → (applyKw d.kw e).alpha = some v) ∧
+    (∀ e, d.kw.lookup "alpha" = none → (applyKw d.kw e).alpha = e.alpha) ∧
+    (d.kw = [] → d.drawn = d.groups.map (·.drawn)) := by
+  refine ⟨?_, fun e => ⟨rfl, rfl, rfl, rfl, rfl⟩, fun e v hv => by simp [applyKw, hv], fun e hv => by simp [applyKw, hv],
+    fun hk => ?_⟩
+  · unfold KwDrawing.drawn
+    induction d.groups with
+    | nil => rfl
+    | cons g gs ih => simp [List.flatMap_cons, ih]
+  · unfold KwDrawing.drawn
+    rw [hk]
+    apply List.map_congr_left
+    intro g _
+    exact List.map_id'' (fun e => applyKw_nil e) _
+
 /-! ## Altair -/
 
 /-- `_draw_grid` hands Altair one row per agent currently in the space (for the space classes Altair
@@ -297,6 +417,68 @@ theorem C20_altair_row_values (heap : Heap) (p : Portrayal) (a : Agent) (l : Loc
       ∀ k, k ≠ "x" → k ≠ "y" → Dict.get? row k = Dict.get? (portrayed heap p a.id) k :=
   ⟨_, by simp [rowOf, hl], altairRow_spec _ l⟩
 
+/-- The Altair chart (`_draw_grid`): its data are the rows of `C20_altair_one_row_per_agent`; the encoding is read off
+    the row of the *first* agent of `space.agents` — a colour / size channel iff that agent's portrayal has the key,
+    tooltips for its other keys (all but colour, size, x, y) in the portrayal's order — and of `{}` for a space without
+    agents; the marks get the default size `30000 / min(width, height)²` exactly when sizes do not come from the rows;
+    x and y are ordinal (nominal for `mesa.space.ContinuousSpace`). -/
+theorem C20_altair_chart_encoding {sp : Space} (h : Reachable sp) (heap : Heap) (p : Portrayal)
+    (hs : altairSupported sp.fam = true) :
+    ∃ c, altairChart sp heap p = .ok c ∧
+      c.rows = (spaceAgents sp).filterMap (rowOf heap p) ∧
+      (spaceAgents sp = [] → c.color = false ∧ c.size = false ∧ c.tooltip = []) ∧
+      (∀ a rest, spaceAgents sp = a :: rest →
+        c.color = Dict.hasKey (portrayed heap p a.id) "color" ∧
+        c.size = Dict.hasKey (portrayed heap p a.id) "size" ∧
+        c.tooltip = (Dict.keys (portrayed heap p a.id)).filter fun k => !invalidTooltips.contains k) ∧
+      (c.markSize = none ↔ c.size = true) ∧
+      (c.size = false → c.markSize = some ⟨30000, (min sp.w sp.h) * (min sp.w sp.h)⟩) ∧
+      c.xyType = (if sp.fam = .cs then "nominal" else "ordinal") := by
+  have hr := ((C20_altair_one_row_per_agent h heap p).1 hs).1
+  refine ⟨_, altairChart_eq hr, rfl, fun he => ?_, fun a rest he => ?_, ?_, ?_, rfl⟩
+  · simp only [he, List.filterMap_nil]
+    exact ⟨rfl, rfl, rfl⟩
+  · obtain ⟨l, hl⟩ := spaceAgents_located (reachable_wf h) a (by rw [he]; exact List.mem_cons_self)
+    simp only [he, firstRow_filterMap heap p a rest hl]
+    exact ⟨hasKey_altairRow _ l (by decide) (by decide), hasKey_altairRow _ l (by decide) (by decide),
+      keys_altairRow_filter _ l _ (by decide) (by decide)⟩
+  · simp only
+    split <;> simp_all
+  · intro hsz
+    simp only at hsz ⊢
+    rw [hsz]
+    rfl
+
+/-- A portrayal that gives every agent a colour (a size) is encoded with it, one that gives none is not — whatever
+    the order of the agents.  (A key returned for some agents only is encoded iff the first agent of `space.agents`
+    has it: seen, not counted — the rows carry the values either way.) -/
+theorem C20_altair_uniform_portrayal_encoded {sp : Space} (h : Reachable sp) (heap : Heap) (p : Portrayal)
+    (hs : altairSupported sp.fam = true) {c : AltairChart} (hc : altairChart sp heap p = .ok c) :
+    (sp.placed ≠ [] → (∀ a ∈ sp.placed, Dict.hasKey (portrayed heap p a.id) "color" = true) → c.color = true) ∧
+    ((∀ a ∈ sp.placed, Dict.hasKey (portrayed heap p a.id) "color" = false) → c.color = false) ∧
+    (sp.placed ≠ [] → (∀ a ∈ sp.placed, Dict.hasKey (portrayed heap p a.id) "size" = true) → c.size = true) ∧
+    ((∀ a ∈ sp.placed, Dict.hasKey (portrayed heap p a.id) "size" = false) → c.size = false) := by
+  obtain ⟨c', hc', _, hnil, hcons, _⟩ := C20_altair_chart_encoding h heap p hs
+  rw [hc] at hc'
+  injection hc' with hc'
+  subst hc'
+  have hperm := spaceAgents_perm (reachable_wf h)
+  have hmem : ∀ a, a ∈ spaceAgents sp → a ∈ sp.placed := fun a ha => hperm.subset ha
+  have hne : sp.placed ≠ [] → spaceAgents sp ≠ [] := by
+    intro hp he
+    have := hperm.length_eq
+    rw [he] at this
+    exact hp (List.length_eq_zero_iff.mp this.symm)
+  cases he : spaceAgents sp with
+  | nil =>
+    obtain ⟨h1, h2, _⟩ := hnil he
+    exact ⟨fun hp => absurd he (hne hp), fun _ => h1, fun hp => absurd he (hne hp), fun _ => h2⟩
+  | cons a rest =>
+    obtain ⟨h1, h2, _⟩ := hcons a rest he
+    have ha : a ∈ sp.placed := hmem a (by rw [he]; exact List.mem_cons_self)
+    exact ⟨fun _ hall => by rw [h1]; exact hall a ha, fun hall => by rw [h1]; exact hall a ha,
+      fun _ hall => by rw [h2]; exact hall a ha, fun hall => by rw [h2]; exact hall a ha⟩
+
 /-! ## property layers -/
 
 /-- Orthogonal grids: the image handed to `imshow(origin="lower")` shows `data[x, y]` in column `x` of image
@@ -325,6 +507,165 @@ theorem C20_V8_ravel_refuted :
     (hexColorsRavel L)[0 * L.w + 1]? = some (L.at 0 1) ∧ L.at 0 1 ≠ L.at 1 0 ∧
     (hexColors L)[0 * L.w + 1]? = some (L.at 1 0) := by
   decide
+
+/-! ## property layers: which layers, over which range, at which level -/
+
+/-- The level of a value over a range `vmin < vmax` (`np.clip(Normalize(vmin, vmax)(v), 0, 1)`, as a fraction of
+    the span): it lies in `[0, 1]`, is 0 exactly for the values up to `vmin` and 1 exactly from `vmax` on. -/
+theorem C20_layer_level_bounds (v vmin vmax : Int) (h : vmin < vmax) :
+    ((normLevel v vmin vmax).den : Int) = vmax - vmin ∧ 0 ≤ (normLevel v vmin vmax).num ∧
+    (normLevel v vmin vmax).num ≤ (normLevel v vmin vmax).den ∧
+    ((normLevel v vmin vmax).num = 0 ↔ v ≤ vmin) ∧
+    ((normLevel v vmin vmax).num = (normLevel v vmin vmax).den ↔ vmax ≤ v) := by
+  have hs : vmax - vmin ≠ 0 := by omega
+  have hd : (((vmax - vmin).toNat : Nat) : Int) = vmax - vmin := Int.toNat_of_nonneg (by omega)
+  have hb := clamp_bounds (a := v - vmin) (lo := 0) (hi := vmax - vmin) (by omega)
+  have h0 := clamp_eq_lo (a := v - vmin) (lo := 0) (hi := vmax - vmin) (by omega)
+  have h1 := clamp_eq_hi (a := v - vmin) (lo := 0) (hi := vmax - vmin) (by omega)
+  simp only [normLevel, if_neg hs]
+  refine ⟨hd, hb.1, by rw [hd]; exact hb.2, ⟨fun h => by have := h0.mp h; omega, fun h => h0.mpr (by omega)⟩, ?_⟩
+  rw [hd]
+  exact ⟨fun h => by have := h1.mp h; omega, fun h => h1.mpr (by omega)⟩
+
+/-- The level is monotone in the value, and strictly monotone between `vmin` and `vmax`: there a larger value
+    is drawn at a strictly higher level, so different values of the layer look different. -/
+theorem C20_layer_level_monotone (vmin vmax : Int) (h : vmin < vmax) {v v' : Int} :
+    (v ≤ v' → (normLevel v vmin vmax).num ≤ (normLevel v' vmin vmax).num) ∧
+    (vmin ≤ v → v < v' → v' ≤ vmax → (normLevel v vmin vmax).num < (normLevel v' vmin vmax).num) ∧
+    (normLevel v vmin vmax).den = (normLevel v' vmin vmax).den := by
+  have hs : vmax - vmin ≠ 0 := by omega
+  simp only [normLevel, if_neg hs]
+  refine ⟨fun hv => clamp_mono (by omega), fun h1 h2 h3 => ?_, trivial⟩
+  rw [clamp_eq_self (by omega) (by omega), clamp_eq_self (by omega) (by omega)]
+  omega
+
+/-- Between `vmin` and `vmax` the level is linear in the value and determines it: `v = vmin + level · (vmax − vmin)`
+    (the numerator of the level is `v − vmin`). -/
+theorem C20_layer_level_determines_value (v vmin vmax : Int) (h : vmin < vmax) (h1 : vmin ≤ v) (h2 : v ≤ vmax) :
+    v = vmin + (normLevel v vmin vmax).num := by
+  have hs : vmax - vmin ≠ 0 := by omega
+  simp only [normLevel, if_neg hs]
+  rw [clamp_eq_self (by omega) (by omega)]
+  omega
+
+/-- Under the automatic range (no `vmin` / `vmax` in the portrayal) the range is the layer's own minimum and
+    maximum, both are values of the layer and every cell lies in the range — so, by the two theorems above, the
+    picture determines the layer. -/
+theorem C20_layer_auto_range (L : Layer) (pt : LayerPortrayal) (hmin : pt.vmin = none) (hmax : pt.vmax = none)
+    {vmin vmax : Int} (hr : layerRange L pt = some (vmin, vmax)) :
+    vmin ∈ L.vals ∧ vmax ∈ L.vals ∧ vmin ≤ vmax ∧ ∀ x y v, L.at x y = some v → vmin ≤ v ∧ v ≤ vmax := by
+  unfold layerRange at hr
+  cases h1 : minOf L.vals <;> cases h2 : maxOf L.vals <;> rw [h1, h2] at hr <;> try (cases hr; done)
+  rename_i lo hi
+  simp only [hmin, hmax, Option.getD_none, Option.some.injEq, Prod.mk.injEq] at hr
+  obtain ⟨rfl, rfl⟩ := hr
+  have ⟨hm1, hm2⟩ := minOf_spec h1
+  have ⟨hM1, hM2⟩ := maxOf_spec h2
+  exact ⟨hm1, hM1, hm2 _ hM1, fun x y v hv => ⟨hm2 v (Layer.at_mem hv), hM2 v (Layer.at_mem hv)⟩⟩
+
+/-- What a drawn layer shows (all four ways of drawing; `Picture.cell`: image row `y`, column `x` for the
+    orthogonal grids — `imshow(…, origin="lower")` —, hexagon `y·w + x` for the hex grids): at the place of cell
+    `(x, y)` the layer's current value `data[x, y]`, normalised over `[vmin, vmax]` (`layerRange`: the portrayal's
+    bounds, else the layer's own minimum / maximum), at opacity `alpha`; the colour bar, if requested, spans the
+    same `[vmin, vmax]`; on hex grids the range is not inverted. -/
+theorem C20_layer_cells_show_their_values {fam : Family} {name : String} {L : Layer} {pt : LayerPortrayal} {d : DrawnLayer}
+    (hw : L.wellFormed = true) (hd : drawLayer fam name L pt = .ok d) {x y : Nat} (hx : x < L.w) (hy : y < L.h) :
+    ∃ v vmin vmax, L.at x y = some v ∧ layerRange L pt = some (vmin, vmax) ∧ d.name = name ∧
+      d.cbar = (if pt.colorbar then some (vmin, vmax) else none) ∧
+      (fam.isHex = true → vmin ≤ vmax) ∧
+      (∀ c, pt.mode = .color c → fam.isHex = false →
+        d.pic.cell L.w x y = some (.opacity (orthoShade pt.alpha v vmin vmax))) ∧
+      (∀ c, pt.mode = .color c → fam.isHex = true →
+        d.pic.cell L.w x y = some (.opacity (hexShade pt.alpha v vmin vmax))) ∧
+      (∀ c, pt.mode = .colormap c → fam.isHex = false →
+        d.pic.cell L.w x y = some (.raw v pt.alpha vmin vmax)) ∧
+      (∀ c, pt.mode = .colormap c → fam.isHex = true →
+        d.pic.cell L.w x y = some (.level (normLevel v vmin vmax) pt.alpha)) ∧
+      pt.mode ≠ .neither :=
+  drawLayer_cell hw hd hx hy
+
+/-- `draw_property_layers` draws exactly the requested layers the space has, once each and in the order of the
+    request (`knownPorts`); names without a layer are skipped; every picture is the one of its own layer and its
+    own portrayal. -/
+theorem C20_layers_drawn_are_the_requested_ones (fam : Family) (layers : List (String × Layer))
+    (ports : List (String × LayerPortrayal)) {ds : List DrawnLayer} (h : drawLayers fam layers ports = .ok ds) :
+    (fam.isOrthogonal = true ∨ fam.isHex = true) ∧
+    ds.map (·.name) = (knownPorts layers ports).map (·.1) ∧
+    ∀ d ∈ ds, ∃ pt L, (d.name, pt) ∈ knownPorts layers ports ∧ layers.lookup d.name = some L ∧
+      drawLayer fam d.name L pt = .ok d := by
+  unfold drawLayers at h
+  split at h
+  · rename_i hg
+    exact ⟨by simpa using hg, drawLayersLoop_spec fam layers ports ds h⟩
+  · cases h
+
+/-- `draw_space(space, agent_portrayal, propertylayer_portrayal, ax)` puts both on one Axes: the agents exactly as
+    without layers (so `C20_draw_one_marker_per_agent` applies), then the layers exactly as `draw_property_layers`
+    draws them; an empty request is skipped (on every class), a refused one raises after the agents are drawn. -/
+theorem C20_draw_space_with_layers {sp : Space} (h : Reachable sp) (heap : Heap) (p : Portrayal)
+    (layers : List (String × Layer)) (ports : List (String × LayerPortrayal)) :
+    ∃ gs, drawSpace sp heap p = .ok gs ∧
+      (ports = [] → drawSpaceFull sp heap p layers ports = .ok (gs, [])) ∧
+      (ports ≠ [] → ∀ ds, drawLayers sp.fam layers ports = .ok ds → drawSpaceFull sp heap p layers ports = .ok (gs, ds)) ∧
+      (ports ≠ [] → ∀ e, drawLayers sp.fam layers ports = .error e →
+        drawSpaceFull sp heap p layers ports = .error (.layers e)) := by
+  obtain ⟨gs, hgs, _⟩ := C20_draw_one_marker_per_agent h heap p
+  refine ⟨gs, hgs, fun he => ?_, fun hne ds hd => ?_, fun hne e hd => ?_⟩
+  · unfold drawSpaceFull; rw [hgs, he]; rfl
+  · have : ports.isEmpty = false := by cases ports <;> simp_all
+    unfold drawSpaceFull; rw [hgs]; simp only [this, hd]; rfl
+  · have : ports.isEmpty = false := by cases ports <;> simp_all
+    unfold drawSpaceFull; rw [hgs]; simp only [this, hd]; rfl
+
+/-- What is refused: a space class without property layers (AttributeError), a layer whose portrayal names neither
+    a colour nor a colormap, a hex layer over an inverted range (ValueError, raised by `Normalize`). -/
+theorem C20_layers_refused (fam : Family) (layers : List (String × Layer)) (name : String) (L : Layer) (pt : LayerPortrayal) :
+    ((fam.isOrthogonal || fam.isHex) = false → ∀ ports, drawLayers fam layers ports = .error .attribute) ∧
+    (pt.mode = .neither → ∃ e, drawLayer fam name L pt = .error e) ∧
+    (fam.isHex = true → ∀ vmin vmax, layerRange L pt = some (vmin, vmax) → vmax < vmin →
+      drawLayer fam name L pt = .error .value) := by
+  refine ⟨fun h ports => by unfold drawLayers; rw [h]; rfl, fun hm => ?_, fun hf vmin vmax hr hlt => ?_⟩
+  · unfold drawLayer
+    cases minOf L.vals <;> cases maxOf L.vals <;> simp [hm]
+  · unfold layerRange at hr
+    unfold drawLayer
+    cases h1 : minOf L.vals <;> cases h2 : maxOf L.vals <;> rw [h1, h2] at hr <;> try (cases hr; done)
+    simp only [Option.some.injEq, Prod.mk.injEq] at hr
+    obtain ⟨rfl, rfl⟩ := hr
+    cases hm : pt.mode <;> simp [hf, hlt]
+
+/-- V13: over a range without extent (a constant layer under the automatic range, or `vmin = vmax` given) every
+    cell is drawn at level 0 — a well-defined picture in all modes, not 0/0. -/
+theorem C20_V13_range_without_extent (alpha : Nat) (v m : Int) :
+    normLevel v m m = ⟨0, 1⟩ ∧ orthoShade alpha v m m = ⟨0, 1⟩ ∧ (hexShade alpha v m m).num = 0 ∧
+    (hexShade alpha v m m).den = 100 := by
+  simp [normLevel, orthoShade, hexShade]
+
+/-- Colour mode, orthogonal against hex grids: inside the range (and for `alpha ≤ 1`) both draw the cell at
+    opacity `level · alpha`; they differ only in where they cut (`np.clip` of the product against `np.clip` of the
+    level): a value above `vmax` is drawn more opaque on an orthogonal grid (witness: value 3 over `[0, 2]` at
+    alpha 0.5: 3/4 against 1/2). -/
+theorem C20_layer_color_modes_agree_in_range (alpha : Nat) (ha : alpha ≤ 100) (v vmin vmax : Int) (h : vmin < vmax)
+    (h1 : vmin ≤ v) (h2 : v ≤ vmax) :
+    orthoShade alpha v vmin vmax = hexShade alpha v vmin vmax ∧
+    (orthoShade alpha v vmin vmax).num = (v - vmin) * alpha ∧
+    ((orthoShade alpha v vmin vmax).den : Int) = (vmax - vmin) * 100 ∧
+    orthoShade 50 3 0 2 = ⟨150, 200⟩ ∧ hexShade 50 3 0 2 = ⟨100, 200⟩ := by
+  have hs : vmax - vmin ≠ 0 := by omega
+  have hp : 0 < vmax - vmin := by omega
+  have hmul : (v - vmin) * (alpha : Int) ≤ (vmax - vmin) * 100 :=
+    Int.mul_le_mul (by omega) (by omega) (by omega) (by omega)
+  have hnn : 0 ≤ (v - vmin) * (alpha : Int) := Int.mul_nonneg (by omega) (by omega)
+  have hden : ((vmax - vmin) * 100).toNat = (vmax - vmin).toNat * 100 := by
+    have : 0 ≤ vmax - vmin := by omega
+    omega
+  refine ⟨?_, ?_, ?_, by decide, by decide⟩
+  · simp only [orthoShade, hexShade, normLevel, if_neg hs, if_pos hp]
+    rw [clamp_eq_self hnn hmul, clamp_eq_self (by omega) (by omega), hden]
+  · simp only [orthoShade, if_neg hs, if_pos hp]
+    exact clamp_eq_self hnn hmul
+  · simp only [orthoShade, if_neg hs, if_pos hp]
+    exact Int.toNat_of_nonneg (by omega)
 
 /-! ## the model-parameter check -/
 
@@ -368,6 +709,85 @@ theorem C20_creator_checks_all_params (sig : List Param) (ps : List (String × P
     creatorCheck sig ps = .ok () ↔ checkModelParams sig (ps.map (·.1)) = .ok () :=
   creatorCheck_ok_iff sig ps
 
+/-! ## ModelCreator: from `model_params` to the parameters the model is (re-)created with -/
+
+/-- The parameter set `ModelCreator` hands on for creating the model (`model_parameters`): every name of
+    `model_params` exactly once — the fixed ones first, then the user-adjustable ones, each part in the order of the
+    dict —, a fixed value as it was given, an input at its `value`.  Nothing is lost in the split and nothing is added. -/
+theorem C20_creator_params_lossless (ps : List (String × ParamVal)) :
+    (initialParams ps).map (·.1) = (splitParams ps).2.map (·.1) ++ (splitParams ps).1.map (·.1) ∧
+    ((initialParams ps).map (·.1)).Perm (ps.map (·.1)) ∧
+    (initialParams ps).Perm (ps.map fun kv => (kv.1, kv.2.initial)) ∧
+    (∀ kv ∈ (splitParams ps).1, isFixed kv.2.toPy = false) ∧ (∀ kv ∈ (splitParams ps).2, isFixed kv.2.toPy = true) := by
+  refine ⟨initialParams_keys ps, ?_, ?_, ?_, ?_⟩
+  · rw [initialParams_keys, ← List.map_append]
+    exact (splitParams_perm ps).map _
+  · rw [initialParams_eq]
+    exact (splitParams_perm ps).map _
+  · intro kv h
+    have := (List.mem_filter.mp h).2
+    simpa using this
+  · intro kv h
+    exact (List.mem_filter.mp h).2
+
+/-- `UserInputs` creates one input per user-adjustable parameter, in the order of the dict, reporting under the
+    parameter's name: for a `Slider` a float or an int slider as the slider says, for an option dict the input its
+    `type` names, labelled with its `label` (the parameter's name if it has none), starting at its `value`; it
+    raises exactly when some option dict names an unsupported type. -/
+theorem C20_user_inputs_one_per_adjustable_param (us : List (String × ParamVal)) :
+    (∀ ws, userInputs us = .ok ws →
+      ws.map (·.name) = us.map (·.1) ∧ us.map (fun kv => widgetOf kv.1 kv.2) = ws.map some) ∧
+    ((∃ t, userInputs us = .error t) ↔ ∃ kv ∈ us, widgetOf kv.1 kv.2 = none) := by
+  refine ⟨userInputs_ok us, ⟨fun ⟨t, h⟩ => userInputs_error us t h, fun ⟨kv, hm, hw⟩ => ?_⟩⟩
+  cases h : userInputs us with
+  | error t => exact ⟨t, rfl⟩
+  | ok ws =>
+    have h2 := (userInputs_ok us ws h).2
+    have : widgetOf kv.1 kv.2 ∈ us.map (fun kv => widgetOf kv.1 kv.2) := List.mem_map.mpr ⟨kv, hm, rfl⟩
+    rw [h2, hw] at this
+    simp at this
+
+/-- `ModelCreator` renders without an error exactly when every input type is supported and the constructor can be
+    called by keyword with the parameter set it hands on (`initialParams`) — the check of the full `model_params`
+    is a check of the call `Model(**model_parameters)` that a reset makes. -/
+theorem C20_creator_accepts_iff_model_can_be_created (sig : List Param) (ps : List (String × ParamVal)) :
+    (∃ r, modelCreator sig ps = .ok r) ↔
+      (∃ ws, userInputs (splitParams ps).1 = .ok ws) ∧ hasVarPositional sig = false ∧
+        bindsByKeyword sig ((initialParams ps).map (·.1)) := by
+  have hkeys : ∀ k, k ∈ (ps.map fun kv => (kv.1, kv.2.toPy)).map (·.1) ↔ k ∈ (initialParams ps).map (·.1) := by
+    intro k
+    rw [((C20_creator_params_lossless ps).2.1).mem_iff, List.map_map]
+    rfl
+  have hcheck : creatorCheck sig (ps.map fun kv => (kv.1, kv.2.toPy)) = .ok () ↔
+      hasVarPositional sig = false ∧ bindsByKeyword sig ((initialParams ps).map (·.1)) := by
+    rw [creatorCheck_ok_iff, checkModelParams_ok_iff]
+    exact and_congr_right fun _ => bindsByKeyword_congr hkeys
+  unfold modelCreator
+  cases hu : userInputs (splitParams ps).1 with
+  | error t => simp
+  | ok ws =>
+    simp only
+    cases hc : creatorCheck sig (ps.map fun kv => (kv.1, kv.2.toPy)) with
+    | error e =>
+      have : ¬(hasVarPositional sig = false ∧ bindsByKeyword sig ((initialParams ps).map (·.1))) := by
+        rw [← hcheck, hc]; simp
+      simp [this]
+    | ok u =>
+      have := hcheck.mp (by rw [hc])
+      simp [this]
+
+/-- A change of an input (`on_change(name, value)` for a name the parameter set has) replaces the value under that
+    name and nothing else: the names — hence whether the constructor can be called with the set — stay the same. -/
+theorem C20_input_change_keeps_the_parameter_set (sig : List Param) (params : List (String × Option Val))
+    (name : String) (value : Val) (h : name ∈ params.map (·.1)) :
+    (onChange params name value).map (·.1) = params.map (·.1) ∧
+    (∀ kv ∈ onChange params name value, kv.1 = name → kv.2 = some value) ∧
+    (∀ kv, kv.1 ≠ name → (kv ∈ onChange params name value ↔ kv ∈ params)) ∧
+    (bindsByKeyword sig ((onChange params name value).map (·.1)) ↔ bindsByKeyword sig (params.map (·.1))) := by
+  have hk := onChange_keys params name value h
+  obtain ⟨h1, h2⟩ := onChange_spec params name value h
+  exact ⟨hk, h1, h2, by rw [hk]⟩
+
 /-! ## non-vacuity -/
 
 /-- a hex grid with three agents, two of them in one cell and sharing one portrayal dict -/
@@ -410,5 +830,67 @@ example : ¬ bindsByKeyword [⟨"self", .posOrKw, false⟩, ⟨"kwargs", .posOrK
   subst e1; subst e2
   have := hr ⟨"kwargs", .posOrKw, false⟩ (by simp) rfl (by simp) (by simp)
   simp at this
+
+-- the default size: 180² on a one-node network (V12), (180/3)² = 32400/9 on the 2 × 3 hex grid, by the centroids'
+-- bounding box (8 × 6) on a Voronoi grid
+example : defaultSize { fam := .net, w := 1, h := 1, cells := [⟨7, 0⟩], placed := [mkAgent .net 1 ⟨7, 0⟩] } = .exact ⟨32400, 1⟩ := by
+  decide
+example : defaultSize exSpace = .exact ⟨32400, 9⟩ := by decide
+example : defaultSize { fam := .vor, w := 1, h := 1, cells := [⟨0, 0⟩, ⟨8, 3⟩, ⟨1, 6⟩], placed := [] } = .exact ⟨32400, 64⟩ := by
+  decide
+
+-- plotting keywords on the V7 space: alpha as a keyword clashes with agent 1's own alpha; linewidths does not and
+-- reaches both markers
+example : drawSpaceKw v7Space [[("alpha", "50")]] (fun a => if a = 1 then some 0 else none) [("linewidths", "3"), ("alpha", "25")] =
+    .error (.conflict "alpha") := by decide
+
+example : (drawSpaceKw v7Space [[("alpha", "50")]] (fun a => if a = 1 then some 0 else none) [("linewidths", "3")]).toOption.map
+    (·.drawn.map (·.map fun e => (e.alpha, e.linewidths))) = some [[(some "50", some "3"), (none, some "3")]] := by decide
+
+-- ModelCreator: a required parameter given as a Slider, an option dict, two fixed values (one of them a dict)
+def exParams : List (String × ParamVal) :=
+  [("n", .slider false "N" "5"), ("fixed", .plain "3"), ("k", .spec "SliderFloat" (some "3") none), ("fd", .plainDict)]
+
+example : modelCreator [⟨"self", .posOrKw, false⟩, ⟨"n", .posOrKw, false⟩, ⟨"k", .posOrKw, true⟩, ⟨"kw", .varKw, false⟩] exParams =
+    .ok ([("fixed", some "3"), ("fd", some "dict"), ("n", some "5"), ("k", some "3")],
+         [⟨.sliderInt, "n", "N", some "5"⟩, ⟨.sliderFloat, "k", "k", some "3"⟩]) := by decide
+
+example : modelCreator [⟨"self", .posOrKw, false⟩, ⟨"n", .posOrKw, false⟩] [("n", .spec "Foo" (some "1") none), ("zz", .plain "1")] =
+    .error (.unsupported "Foo") := by decide
+
+example : onChange (initialParams exParams) "k" "7" = [("fixed", some "3"), ("fd", some "dict"), ("n", some "5"), ("k", some "7")] := by
+  decide
+
+-- Altair: the encoding follows the first agent of `space.agents` (agent 2, cell (0,1)): its dict has a z-order only, so
+-- neither colour nor size is encoded and the marks get the default size 30000 / 2²; the tooltips are its other keys
+example : (altairChart exSpace exHeap exPortrayal).toOption.map (fun c => (c.color, c.size, c.tooltip)) =
+      some (false, false, ["zorder"]) ∧
+    (altairChart exSpace exHeap exPortrayal).toOption.map (fun c => (c.markSize, c.xyType, c.rows.length)) =
+      some (some ⟨30000, 4⟩, "ordinal", 3) := by
+  refine ⟨by decide, by decide⟩
+
+-- property layers: a 2 × 2 grid with two layers; the request names one of them, an unknown layer and the other
+def exLayers : List (String × Layer) := [("a", ⟨2, 2, [0, 1, 2, 3]⟩), ("b", ⟨2, 2, [5, 5, 5, 5]⟩)]
+
+example : drawLayers .moore exLayers
+    [("a", { mode := .color "red", alpha := 50, vmin := some 0, vmax := some 2, colorbar := false }),
+     ("zz", { mode := .neither }), ("b", { mode := .colormap "viridis" })] =
+    .ok [⟨"a", .imgRgba "red" [[some ⟨0, 200⟩, some ⟨100, 200⟩], [some ⟨50, 200⟩, some ⟨150, 200⟩]], none⟩,
+         ⟨"b", .imgCmap "viridis" 100 5 5 [[some 5, some 5], [some 5, some 5]], some (5, 5)⟩] := by decide
+
+example : (drawLayers .hex exLayers [("a", { mode := .color "red", alpha := 50, vmin := some 0, vmax := some 2 })]).toOption.map
+    (·.map fun d => (d.pic.cell 2 1 0, d.pic.cell 2 1 1, d.cbar)) =
+    some [(some (.opacity ⟨100, 200⟩), some (.opacity ⟨100, 200⟩), some (0, 2))] := by decide
+
+example : drawLayers .hex exLayers [("a", { mode := .colormap "viridis", vmin := some 3, vmax := some 1 })] = .error .value := by
+  decide
+
+example : (drawSpaceFull v7Space [] (fun _ => none) [("a", ⟨2, 2, [0, 1, 2, 3]⟩)]
+      [("a", { mode := .color "red", colorbar := false })]).toOption.map (fun r => (r.1.length, r.2.map (·.name))) =
+    some (1, ["a"]) := by decide
+
+example : drawLayers .net exLayers [] = .error .attribute := by decide
+
+example : layerRange ⟨2, 2, [4, 1, 7, 3]⟩ { mode := .color "red" } = some (1, 7) := by decide
 
 end Mesa.Viz
